@@ -26,6 +26,17 @@ def load_known():
     return json.load(open(p)).get('findings', [])
 
 
+def reader_oracle(fn):
+    """lift an oracle on parsed reader cases to raw lines"""
+    def f(c, o, s):
+        if not c.startswith('R '):
+            return None
+        case = parse_case(c)
+        toks, log = split_obs(canon(o))
+        return fn(case, toks, log, parse_spec(case['fmt'], canon(s)))
+    return f
+
+
 def project(line, keep_growth):
     """What the exact comparison looks at."""
     line = canon(line)
@@ -80,10 +91,7 @@ def _run_cases(res, fam, cases, oracle_fn, keep_growth, exact):
             else:
                 res.exact_diffs.append((c, None, None))
         if oracle_fn is not None:
-            case = parse_case(c)
-            toks, log = split_obs(canon(o))
-            items = parse_spec(case['fmt'], canon(s))
-            v = oracle_fn(case, toks, log, items)
+            v = oracle_fn(c, o, s)
             if v is not None:
                 if v.failures:
                     if len(res.oracle_failures) < 200:
